@@ -149,13 +149,19 @@ fn main() {
         "C04" => props::c04::run(&ctx),
         "C06" => props::c06::run(&ctx),
         "C07" => props::c07::run(&ctx),
+        #[cfg(feature = "ed")]
         "C08" => props::c08::run(&ctx),
+        #[cfg(feature = "ed")]
         "C09" => props::c09::run(&ctx),
         "C11c" => props::c11c::run(&ctx),
         "C12" => props::c12::run(&ctx),
+        #[cfg(feature = "ed")]
         "C13" => props::c13::run(&ctx),
+        #[cfg(all(feature = "zeroize", feature = "ed"))]
         "C14" => props::c14::run(&ctx),
+        #[cfg(feature = "ed")]
         "C15" => props::c15::run(&ctx),
+        #[cfg(feature = "ed")]
         "C16" => props::c16::run(&ctx),
         "C17" => props::c17::run(&ctx),
         _ => {
